@@ -27,11 +27,10 @@ Cat = z3.Function('ghost.cat', I, I, I)        # bytes id of the concatenated pa
 J = z3.Int('c08!j')
 
 
-def verify_vnode_generator(run, tier):
+def verify_vnode_generator(run, tier, prefix='C08/vnode_generator', only=None):
     sess = Session()
     it = sess.it
     fq = MOD + ':TracesParser.vnode_generator'
-    prefix = 'C08/vnode_generator'
     state = {}
     data = z3.Function('rec.data', I, I)
     fq_ = z3.Function('rec.qual', I, I)
@@ -62,6 +61,11 @@ def verify_vnode_generator(run, tier):
             return False
         ctx = it.ctx
         sink = it.lookup('$yield', fr)
+        # the invariant is stated over the loop's own state variables; a loop that keeps its state elsewhere needs another one
+        for nm in ('path', 'vnodeid', 'lookup_events'):
+            if fr._loc_get(nm) is MISSING:
+                raise Unsupported('the record loop of vnode_generator no longer keeps its state in the local %r: the loop invariant of the '
+                                  'contract does not apply to this shape' % nm)
         if not ctx.branch(z3.Bool('vg.inductive_step')):
             return True
         g, k = z3.Ints('vg.g vg.k')
@@ -135,7 +139,7 @@ def verify_vnode_generator(run, tier):
             it.run_generator(g)
         return None
     from checks import c02
-    c02._explore(run, tier, sess, thunk, fq, prefix)
+    c02._explore(run, tier, sess, thunk, fq, prefix, only=only)
 
 
 def chunk_lemma(run, tier):
